@@ -982,6 +982,10 @@ func c09Run(c *c09Case) (out []c09Row, kind string, calls [][2]int, plan string,
 			if c.DedupeIn && tree != nil && tree.kids[i].leaf < 0 {
 				parts[i] += "~D" // a deduplicating view: Rows() leaves out rows of the column chunks
 			}
+			// the tree of views behind the input (types only): the mirror derives supportsRowRanges from it
+			if sh := parquet.VerifRowGroupShape(rg); len(sh) < 2000 {
+				parts[i] += "~H" + strings.ReplaceAll(sh, ",", ";")
+			}
 		}
 		if ok {
 			ts := "."
@@ -1038,7 +1042,7 @@ func c09Run(c *c09Case) (out []c09Row, kind string, calls [][2]int, plan string,
 			}
 			return "0"
 		}
-		c.shapes = append(c.shapes, [2]string{parquet.VerifRowGroupShape(rg), "ok " + b(il) + " " + b(dr) + " " + b(ro)})
+		c.shapes = append(c.shapes, [2]string{parquet.VerifRowGroupShape(rg), "ok " + b(il) + " " + b(dr) + " " + b(ro) + " " + b(parquet.VerifRowGroupSupportsRowRanges(rg))})
 	}
 	kind = parquet.VerifMergeKind(merged)
 	var segs []string
@@ -1448,7 +1452,7 @@ func c09Check(ctx *core.Ctx, c *c09Case, p *c09Pending) {
 			p.reqs = append(p.reqs, req)
 			p.pend = append(p.pend, func(ans string) {
 				if ans != want {
-					ctx.Fail("L2", "shape-mirror", "rowGroupInterleavesChunks / rowGroupDropsRows / rowGroupReadsChunksInOrder (in this order) of a tree of row-group views differ from the Lean mirror", map[string]any{
+					ctx.Fail("L2", "shape-mirror", "rowGroupInterleavesChunks / rowGroupDropsRows / rowGroupReadsChunksInOrder / supportsRowRanges (in this order) of a tree of row-group views differ from the Lean mirror", map[string]any{
 						"case": canon[:min(len(canon), 3000)], "request": req, "impl": want, "model": ans})
 				}
 			})
